@@ -342,17 +342,17 @@ def main(tier):
     chk.assumptions += ['observations are compared through abstract node positions of each document; a pristine deepcopy gives the reference rows',
                         'histories: exhaustive pairs over reduced pools (BFS) + sampled longer histories (-simulate)']
     # ---- design level: Session.tla positive / negative ---------------------------------------
-    for policy, must_hold in (('store_none', True), ('store_empty', False)):
-        cfg = replay.write_cfg('session_' + policy, {'Policy': '"%s"' % policy}, invariants=('MemoTransparent',))
+    for policy, lifetime, must_hold in (('store_none', 'call', True), ('store_empty', 'call', False), ('store_none', 'process', False)):
+        cfg = replay.write_cfg('session_' + policy + '_' + lifetime, {'Policy': '"%s"' % policy, 'Lifetime': '"%s"' % lifetime}, invariants=('MemoTransparent',))
         try:
             res = tlc.run('MC_C04_session', cfg=cfg, workers=4, coverage=True)
         finally:
             replay.rm_cfg(cfg)
-        chk.add_tlc(res, 'session_' + policy)
+        chk.add_tlc(res, 'session_' + policy + '_' + lifetime)
         if must_hold and res.violation:
             chk.violation('spec|session', 'Session.tla: T-MemoTransparent fails for the intended design', {'cfg': 'session', 'group': 'spec', 'tlc': res.counterexample[:3000]})
         if not must_hold and not res.violation:
-            chk.machinery('negative model store_empty was not refuted (vacuity guard)')
+            chk.machinery('negative model %s / %s was not refuted (vacuity guard)' % (policy, lifetime))
     # ---- histories from TLC ------------------------------------------------------------------
     hists = []
     nk, nd, ns, nt = len(KINDS), len(_all_docs()), len(SELS), 6
